@@ -332,7 +332,7 @@ class Server:
 def main(tier, replay):
     ctx = vlib.Ctx("C19", tier, "fault_enumeration")
     ctx.rule = ("for a fresh client brought canonically to step k (13 steps Start..End): every single mutation of the canonical parameters (each leaf changed to another value of its type, retyped to each other JSON type, removed; "
-                "containers retyped, elements added/removed/swapped, keys added, struct written as positional array), every non-canonical more/oneway/upgrade combination, every wrong position, unknown/empty/foreign client ids; "
+                "containers retyped, elements added/removed/swapped, keys added, struct written as positional array), every non-canonical more/oneway/upgrade combination, every wrong position (also every step after End, on the same and on a new connection, and a whole second pass), unknown/empty/foreign client ids; "
                 "thorough adds pairs of mutations; plus 1..16 concurrent canonical clients with interleaved steps; distinct = (step, mutation path, kind, flags); every case is a distinct fault")
     ctx.assumptions.append("canonical requests are derived by running the canonical flow (each reply feeds the next request), not copied from the server source")
     ctx.assumptions.append("negative controls that must still succeed: float written as integer, explicit false flags, added unknown members (except Start), null-valued optional members removed, extra members inside a string-set entry")
@@ -486,6 +486,7 @@ def main(tier, replay):
         for k, kind, req in neg:
             negative(ctx, srv, k, req, kind)
         concurrent(ctx, srv, 8 if tier == "quick" else 200)
+        after_end(ctx, srv)
         replay_race(ctx, srv, 2500 if tier == "quick" else 40000)
         if srv.p.poll() is not None:
             ctx.violation("c19:server-died", {"status": srv.p.returncode})
@@ -597,6 +598,65 @@ def negative(ctx, srv, k, req, kind):
         # not a property violation (the statement only forbids passing deviations), but it means
         # the harness' idea of "deviation" is off: report as inconclusive so that it is looked at
         ctx.inconc({"negative_control_failed": kind, "step": STEPS[k], "outcome": out})
+
+
+def after_end(ctx, srv):
+    """A client id that has run the whole sequence (End answered) is finished: every step sent
+    under it afterwards is out of order - on the connection that ran the sequence, on a new
+    one, once or as a whole second pass."""
+    for j in range(1, len(STEPS)):
+        for fresh_conn in (False, True):
+            try:
+                c = Conn(srv.path)
+                cid, prev, err = run_canonical(c, len(STEPS))
+                if err:
+                    ctx.violation("c19:canonical-sequence-fails", {"engine": "c19", "error": err})
+                    c.close()
+                    return
+                if fresh_conn:
+                    c.close()
+                    c = Conn(srv.path)
+                req = copy.deepcopy(CANON[STEPS[j]])
+                req["parameters"]["client_id"] = cid
+                o = outcome(c, req)
+                c.close()
+            except (OSError, ValueError) as e:
+                ctx.inconc({"after_end": repr(e)})
+                continue
+            ctx.case(("after-end", STEPS[j], fresh_conn))
+            ctx.count("steps_sent_after_end", 1)
+            if o[0] == "error":
+                ctx.count("error_replies_observed", 1)
+            if o[0] == "success" and STEPS[j] == "End":
+                # the service keeps a finished client at "End expected": a repeated End is the
+                # step it waits for, not a step out of order (reported, not judged)
+                ctx.count("info_end_repeated_after_end_answered", 1)
+            elif o[0] == "success":
+                ctx.violation("c19:deviation-passes:%s:step-after-end" % STEPS[j], {"engine": "c19", "step_name": STEPS[j], "kind": "after-end", "request": req, "new_connection": fresh_conn,
+                              "message": "a client id that had finished the sequence (End answered) got the success reply of %s" % STEPS[j], "reply": o[1]})
+            elif o[0] == "timeout":
+                ctx.inconc({"after_end": STEPS[j], "why": "no reply within the time limit"})
+    # a whole second pass under the finished id
+    try:
+        c = Conn(srv.path)
+        cid, prev, err = run_canonical(c, len(STEPS))
+        passed = []
+        prev = {}
+        for j in range(1, len(STEPS) - 1):
+            req = request(STEPS[j], cid, prev)
+            o = outcome(c, req)
+            if o[0] == "success":
+                passed.append(STEPS[j])
+                prev = o[1].get("parameters") or {}
+            else:
+                break
+        c.close()
+        ctx.case(("after-end", "second-pass"))
+        if passed:
+            ctx.violation("c19:deviation-passes:%s:step-after-end" % passed[0], {"engine": "c19", "kind": "after-end-second-pass", "steps_that_passed": passed,
+                          "message": "a second pass under a finished client id was accepted for %d step(s)" % len(passed)})
+    except (OSError, ValueError, KeyError, TypeError) as e:
+        ctx.inconc({"after_end_second_pass": repr(e)})
 
 
 def replay_race(ctx, srv, rounds):
